@@ -94,6 +94,18 @@ func (m *corsCacheStorageMiddleware) DeleteBucketCORSConfiguration(ctx context.C
 	return err
 }
 
+// DeleteBucket drops the bucket's cached CORS configuration: the configuration is
+// stored with the bucket, so it must not outlive it (or leak into a bucket that is
+// later re-created under the same name).
+func (m *corsCacheStorageMiddleware) DeleteBucket(ctx context.Context, bucketName storage.BucketName) error {
+	ctx, span := m.tracer.Start(ctx, "CORSCacheStorageMiddleware.DeleteBucket")
+	defer span.End()
+
+	err := m.Next.DeleteBucket(ctx, bucketName)
+	m.invalidate(bucketName.String())
+	return err
+}
+
 func (m *corsCacheStorageMiddleware) lookup(key string) (cacheEntry, bool) {
 	m.mu.RLock()
 	entry, ok := m.entries[key]
